@@ -165,7 +165,7 @@ def shard_long(ctx: Ctx, sh: int, nshards: int, n: int) -> Stats:
         for sig, det in fails:
             st.fail(sig, {"kind": "chain", "members": members, "value_idx": vi, "value_repr": repr(VALUES[vi])}, det)
 
-    drive(strat, one, ctx.shard_seed(sh, 3), n)
+    drive(strat, one, ctx.shard_seed(sh, 3), n, chunk=4000)
     return st
 
 
@@ -353,7 +353,7 @@ def shard_docs(ctx: Ctx, sh: int, nshards: int, n: int) -> Stats:
             for sig, det in fails:
                 st.fail(sig, case, det)
 
-        drive(doc_strategy(), one, ctx.shard_seed(sh, 4), n)
+        drive(doc_strategy(), one, ctx.shard_seed(sh, 4), n, chunk=4000)
     return st
 
 
